@@ -370,7 +370,63 @@ def r6(tree, rep):
     rep.check("C06.R6", "close() drops the transport", bool(calls_named(cl, "self.transport.loseConnection")), site(cl, TR), key="C06.R6:close:lose")
 
 
+def r7(tree, rep):
+    """a record is a byte string and the empty one is a record like any other: between decryption / the inbound queue and the
+    application no code decides anything by the *truthiness* of a record value (`if record:` silently drops b"")"""
+    cls = tree.cls(TR, "Connection")
+    n = 0
+    for fn in [m for m in cls.body if isinstance(m, ast.FunctionDef)]:
+        tainted = set()
+        if fn.name == "recordReceived":
+            ps = params(fn)
+            if ps:
+                tainted.add(ps[0])
+        for a in ast.walk(fn):
+            if isinstance(a, (ast.Assign, ast.AnnAssign, ast.NamedExpr)):
+                val = a.value
+                tg = a.targets if isinstance(a, ast.Assign) else [a.target]
+                if val is None:
+                    continue
+                src = any((isinstance(c, ast.Call) and (dotted(c.func) in ("self._decrypt_record",) or (isinstance(c.func, ast.Attribute) and (
+                    c.func.attr == "decrypt" or (c.func.attr in ("pop", "popleft") and is_self_attr(c.func.value, "_inbound_records"))))))
+                    or (isinstance(c, ast.Subscript) and is_self_attr(c.value, "_inbound_records")) for c in ast.walk(val))
+                if src:
+                    for t in tg:
+                        if isinstance(t, ast.Name):
+                            tainted.add(t.id)
+        if not tainted:
+            continue
+        n += 1
+        bad = []
+        for x in ast.walk(fn):
+            tests = []
+            if isinstance(x, (ast.If, ast.While, ast.IfExp, ast.Assert)):
+                tests.append(x.test)
+            elif isinstance(x, ast.BoolOp):
+                tests.extend(x.values)
+            elif isinstance(x, ast.UnaryOp) and isinstance(x.op, ast.Not):
+                tests.append(x.operand)
+            elif isinstance(x, ast.comprehension):
+                tests.extend(x.ifs)
+            for t in tests:
+                while isinstance(t, ast.UnaryOp) and isinstance(t.op, ast.Not):
+                    t = t.operand
+                if isinstance(t, ast.Call) and isinstance(t.func, ast.Name) and t.func.id in ("bool", "len") and t.args:
+                    t = t.args[0]
+                if isinstance(t, ast.Name) and t.id in tainted:
+                    bad.append(t)
+        rep.check("C06.R7", "Connection.%s never tests a record value (%s) for truthiness" % (fn.name, sorted(tainted)), not bad,
+                  site(bad[0] if bad else fn, TR), key="C06.R7:%s:record-truthiness" % fn.name,
+                  what="Connection.%s branches on the truthiness of a record (%s): a zero-length record is a legal record and is dropped or "
+                       "handled as 'no record' - the receiver does not obtain exactly the records sent" % (fn.name, bad[0].id if bad else "?"))
+    if n < 2:
+        raise AnalysisError("Connection: fewer functions handle record values than expected (%d)" % n)
+
+
 def run(tree, rep, tier):
+    from .. import sharedstate
+    sharedstate.check(tree, rep, "C06.R0")
+    r7(tree, rep)
     r1(tree, rep)
     r2(tree, rep)
     r3(tree, rep)
